@@ -87,7 +87,9 @@ class VCRuntime:
             return mk_int(tint(x))
         if isinstance(x, SReal):
             raise Unsupported("int(real)")
-        if is_sym(x) or hasattr(x, "sym_int"):
+        if hasattr(x, "sym_int"):
+            return x.sym_int(base)
+        if is_sym(x):
             return stubs.int_parse(x, base)
         return int(x, base) if isinstance(x, (str, bytes, bytearray)) else int(x)
 
@@ -374,6 +376,23 @@ class VCRuntime:
         if is_sym(x):
             return Not(x)
         return not x
+
+    def super_(self, obj):
+        """zero-argument super(): methods come from the unit as 'super.<name>' entries of the object"""
+        from .values import methods as _methods
+
+        rt = self
+
+        class _Super:
+            def __getattr__(s, name):
+                if name.startswith("sym_") or name.startswith("__"):
+                    raise AttributeError(name)
+                m = _methods(obj).get("super." + name)
+                if m is None:
+                    raise Unsupported(f"super().{name} is not modelled for {obj!r}")
+                return lambda *a, **k: m(obj, *a, **k)
+
+        return _Super()
 
     def callm(self, o, name, *args, **kw):
         if isinstance(o, (bytes, bytearray, str)) and (any(is_sym(a) or _has_sym(a) for a in args)):
